@@ -26,9 +26,9 @@ nal=[{"property_id":i,"reason":na.get(i,"not yet built in this session (engine w
 m={"version":1,
  "setup_cmd":"cd /verif/gosym && GOFLAGS=-mod=mod GOPROXY=off GOTOOLCHAIN=local go1.26.8 build -o ../bin/verif ./cmd/verif && ../bin/verif selftest",
  "hooks":{"guard":"verif","enable":"none needed: harnesses are injected with go/packages overlays (symbolic run) and go test -overlay (native replay); /repo is never edited by a check","baseline_off_cmd":"/verif/tools/baseline.sh /repo","source_commits":[],"add_only":True},
- "engines":[{"name":"gosym","path":"/verif/gosym","serves_properties":sorted(claimed),"kind_free_text":"symbolic executor for Go: fork of x/tools go/ssa/interp over bit-vector terms, path exploration by re-execution with decision vectors, one z3 -in per worker, native replay of every counterexample"}],
+ "engines":[{"name":"gosym","path":"/verif/gosym","serves_properties":sorted(claimed),"kind_free_text":"symbolic executor for Go: fork of x/tools go/ssa/interp over bit-vector terms, path exploration by re-execution with decision vectors, one z3 -in per worker, a controlled scheduler for goroutines (preemption- or delay-bounded, schedules are solver variables), model filesystem / server / process stubs in harness code, replay of every counterexample (natively with go test where the harness has a native counterpart, otherwise by concrete re-execution of the recorded inputs and schedule)"}],
  "checks":checks,
  "not_applicable":nal,
- "notes":"All checks are bounded: 'held' means every assertion query on every explored path was unsat within the bounds recorded in the evidence file. See DESIGN.md."}
+ "notes":"All checks are bounded: 'held' means every assertion query on every explored path was unsat (or concretely true) within the bounds recorded in the evidence file; a run that hits its time budget says so with an INCONCLUSIVE line and in the evidence, and still exits 0. Quick tiers complete within their budgets on a 16-core machine (longest about 4 minutes); thorough tiers are capped at 900 s per harness. Known findings are listed in known_findings.json with exact excuse predicates; native demonstrations of the defects found are under findings/. See DESIGN.md section 10."}
 json.dump(m,open(f'{V}/MANIFEST.json','w'),indent=1)
 print("claimed",sorted(claimed))
